@@ -7,7 +7,7 @@ reference semantics (polar-model op=moments), on the corpus and on seeded genera
 import json
 import os
 
-from .. import pipeline
+from .. import pipeline, hast as H
 from ..common import Check, lean_gate, ROOT
 from ..findings import attribute
 from ..theorems import THEOREMS as _T
@@ -58,6 +58,196 @@ def run(tier):
                               pipeline.replay_blob(r))
         if r["status"] == "harness-error":
             chk.count("harness-error")
+    # ---- the CLI lines: 'E(M) = v0; v1; ...; formula' and 'E(M | n=k) = value' (prettify_piecewise, eval_re)
+    cli_cases = [r for i, r in enumerate(recs) if r["status"] in ("agree", "mismatch") and i % 2 == 0]
+    from ..pool import run_tasks
+    from ..oracle import polar_subs
+    from fractions import Fraction as Fr
+    rr = rng_cli = __import__("harness.common", fromlist=["rng"]).rng(f"{PROP}-cli-{tier}")
+    cli_tasks = []
+    for r in cli_cases:
+        c = r["case"]
+        gs = ["E(" + "*".join(f"{v}**{k}" for v, k in g) + ")" for g in c["goals"]]
+        r["_at_n"] = rr.randint(0, 6)
+        cli_tasks.append({"fn": "harness.tasks.analyze:cli_goals_eval",
+                          "args": {"text": c["text_used"], "goal_strs": gs, "at_n": r["_at_n"], "subs": polar_subs(c),
+                                   "nmax": nmax}})
+    cli_out = run_tasks(cli_tasks, timeout=timeout, progress=None) if cli_tasks else []
+    n_cli_ok = 0
+    for r, out in zip(cli_cases, cli_out):
+        if out["status"] != "ok" or out["result"].get("error"):
+            chk.count("cli:" + (out["status"] if out["status"] != "ok" else "error-" + out["result"]["error"]["etype"]))
+            continue
+        o = r["oracle"]["values"]
+        forms = [p for p in out["result"]["parsed"] if p["kind"] == "closed_form"]
+        atn = [p for p in out["result"]["parsed"] if p["kind"] == "at_n"]
+        if any(p["kind"] == "unparsed" for p in out["result"]["parsed"]) or len(forms) != len(r["case"]["goals"]):
+            chk.count("cli:unparsed-output")
+            continue
+        bad = None
+        for gi, f in enumerate(forms):
+            want = [Fr(x) for x in o[gi]]
+            seq = f["specials"] + f["general"]
+            for n, (pv, w) in enumerate(zip(seq, want)):
+                if pv[0] == "q" and Fr(pv[1]) == w:
+                    continue
+                if pv[0] in ("irrational", "float"):
+                    try:
+                        if abs(complex(pv[1].replace("*I", "j").replace(" ", "")).real - float(w)) <= 1e-9 * max(1, abs(float(w))):
+                            continue
+                    except Exception:
+                        pass
+                bad = (f["raw"], n, pv[1], str(w), "printed special cases / general formula")
+                break
+            if bad:
+                break
+            if gi < len(atn):
+                k = atn[gi]["n"]
+                pv = atn[gi]["value"]
+                if k < len(want) and not (pv[0] == "q" and Fr(pv[1]) == want[k]):
+                    ok_num = False
+                    if pv[0] in ("irrational", "float"):
+                        try:
+                            ok_num = abs(complex(pv[1].replace("*I", "j").replace(" ", "")).real - float(want[k])) <= 1e-9 * max(1, abs(float(want[k])))
+                        except Exception:
+                            ok_num = False
+                    if not ok_num:
+                        bad = (atn[gi]["raw"], k, pv[1], str(want[k]), "--at_n value")
+                        break
+        chk.count("cli:cases-compared")
+        if bad and r["status"] == "agree":
+            raw, n, got, want, what = bad
+            chk.violation(f"CLI line {raw[:120]!r}: {what} at n={n} gives {got}, exact {want}",
+                          dict(pipeline.replay_blob(r), cli_line=raw, n=n, printed_value=got, exact=want, what=what,
+                               at_n=r["_at_n"]))
+        elif not bad:
+            n_cli_ok += 1
+    chk.obligation("correspondence:cli-printed-lines", lean_ok and (n_cli_ok > 0 or not cli_cases), {"cases_ok": n_cli_ok})
+    # ---- the per-instance chain that makes the closed form right for ALL n (C05-V1, C03-V2, C04 window check):
+    #   types inductive  ∧  every equation a one-step identity on all typed states  ∧  initial vector exact
+    #   ∧  closed form = (A^n v)_i for all n   ⇒   closed form(n) = E(M)(n) of the normalised program for all n
+    chain_cases = [r for i, r in enumerate(recs) if r["status"] == "agree" and i % 2 == 1]
+    chain_tasks = [{"fn": "harness.tasks.normalize:full_chain",
+                    "args": {"text": r["case"]["text_used"], "goals": [[[x, k] for x, k in g] for g in r["case"]["goals"][:2]],
+                             "subs": polar_subs(r["case"])}} for r in chain_cases]
+    chain_out = run_tasks(chain_tasks, timeout=timeout, progress=None) if chain_tasks else []
+    from ..oracle import lean_sigma0
+    from ..common import model_batch_parallel
+    import json as _json
+    creqs, cmeta = [], []
+    for r, out in zip(chain_cases, chain_out):
+        if out["status"] != "ok" or not out["result"].get("accepted") or out["result"].get("program") is None \
+                or out["result"].get("abstracted"):
+            chk.count("chain:skipped-upstream")
+            continue
+        res = out["result"]
+        c = r["case"]
+        vtypes, okt = {}, True
+        for v, vals in res["typedefs"].items():
+            try:
+                vtypes[v] = [H.fr_str(Fr(x)) for x in vals]
+            except Exception:
+                okt = False
+        if not okt:
+            chk.count("chain:symbolic-types")
+            continue
+        prog = _json.loads(_json.dumps(res["program"]))
+        base = lean_sigma0(c)
+        s0 = dict(base)
+        for pz in [z for z in res.get("symbols", []) if z in base]:
+            prog["init"].insert(0, ["assign", pz, ["expr", ["num", base[pz]]], ["tt"], pz])
+            vtypes[pz] = [base[pz]]
+        for sysm in res["systems"]:
+            if not sysm.get("ok") or not sysm.get("numeric") or "closed" not in sysm or "error" in sysm["closed"]:
+                chk.count("chain:system-unavailable")
+                continue
+            cl = sysm["closed"]
+            if not cl.get("exact"):
+                chk.count("chain:rounded")
+                continue
+            group = []
+            group.append({"op": "types_inductive", "program": prog, "types": vtypes, "cap": 4096})
+            for row in sysm["rows"]:
+                group.append({"op": "onestep_check", "program": prog, "types": vtypes, "mono": row["mono"],
+                              "terms": [[t[0], t[1]] for t in row["terms"]], "cap": 4096})
+            # initial vector and the first step (the recurrence theorem covers n >= 1 for variables without initial assignment)
+            names = set()
+            from .c02 import _walk_vars
+            _walk_vars(res["program"], names)
+            ss = dict(s0)
+            for v in names:
+                if v not in ss:
+                    ss[v] = "97/13"
+            group.append({"op": "moments", "program": res["program"], "sigma0": ss, "monos": [row["mono"] for row in sysm["rows"]],
+                          "nmax": 1, "budget": 3000})
+            A, v0 = sysm["matrix"], sysm["init_vector"]
+            n0 = max(cl["max_case"] + 1, 0)
+            if any(x is None for rw in A for x in rw) or any(x is None for x in v0):
+                chk.count("chain:non-numeric-matrix")
+                continue
+            basereq = {"op": "cfinite_check", "A": A, "v": v0, "i": cl["index"], "n0": n0}
+            if cl.get("terms") is not None:
+                group.append(dict(basereq, terms=cl["terms"]))
+            elif cl.get("terms_qd") is not None:
+                group.append(dict(basereq, terms=cl["terms_qd"], D=cl["D"]))
+            elif cl.get("degs") and all(t == "q" for t, _ in cl["values"]) and n0 + len(A) + sum(cl["degs"]) <= len(cl["values"]):
+                W = len(A) + sum(cl["degs"])
+                group.append(dict(basereq, values=[x for _, x in cl["values"][n0:n0 + W]], degs=cl["degs"]))
+            else:
+                chk.count("chain:closed-form-shape-unavailable")
+                continue
+            group.append({"op": "matpow_seq", "A": A, "v": v0, "nmax": max(n0, 1)})
+            cmeta.append((r, sysm, len(group)))
+            creqs += group
+    cans = model_batch_parallel(creqs, timeout=60) if creqs else []
+    pos = 0
+    n_chain = 0
+    for r, sysm, k in cmeta:
+        grp = cans[pos:pos + k]
+        pos += k
+        cl = sysm["closed"]
+        rows = sysm["rows"]
+        a_types, a_rows, a_mom, a_cf, a_seq = grp[0], grp[1:1 + len(rows)], grp[1 + len(rows)], grp[2 + len(rows)], grp[3 + len(rows)]
+        if not all(a.get("ok") for a in grp):
+            chk.count("chain:model-refused")
+            continue
+        if a_types.get("inductive") is not True or any(a.get("holds") is not True for a in a_rows):
+            if a_types.get("inductive") is False or any(a.get("holds") is False for a in a_rows):
+                chk.count("chain:LINK-FAILED(types/equations)")      # reported by C05 / C03 with a witness
+            else:
+                chk.count("chain:outside-validator-fragment")
+            continue
+        # initial vector exact, first step exact
+        init_ok = all(row["init"] is not None and Fr(row["init"]) == Fr(vals[0]) for row, vals in zip(rows, a_mom["values"]))
+        key = {_json.dumps(row["mono"]): vals for row, vals in zip(rows, a_mom["values"])}
+        step_ok = True
+        for row in rows:
+            vals = key[_json.dumps(row["mono"])]
+            if len(vals) < 2:
+                step_ok = False
+                break
+            rhs = sum((Fr(cv) * (Fr(key[_json.dumps(mj)][0]) if mj else 1) for mj, cv, _ in row["terms"]), Fr(0))
+            if rhs != Fr(vals[1]):
+                step_ok = False
+        special_ok = True
+        n0 = max(cl["max_case"] + 1, 0)
+        for n in range(min(n0, len(a_seq["seq"]), len(cl["values"]))):
+            tag, sv = cl["values"][n]
+            if tag != "q" or Fr(sv) != Fr(a_seq["seq"][n][cl["index"]]):
+                special_ok = False
+        if init_ok and step_ok and special_ok and a_cf.get("agree"):
+            n_chain += 1
+            chk.count("chain:closed-form-proved-for-all-n")
+        else:
+            chk.count("chain:LINK-FAILED(" + ",".join(nm for nm, okk in (("init", init_ok), ("first-step", step_ok),
+                                                                         ("special-cases", special_ok), ("cfinite", a_cf.get("agree"))) if not okk) + ")")
+            if r["status"] == "agree":
+                chk.violation(f"for-all-n chain broken for E({sysm['goal']}): init={init_ok} first-step={step_ok} special-cases={special_ok} "
+                              f"general-solution={a_cf.get('agree')} ({a_cf.get('first_bad')})",
+                              dict(pipeline.replay_blob(r), goal=sysm["goal"], closed_form=cl.get("str"), cfinite=a_cf,
+                                   matrix=sysm["matrix"], init_vector=sysm["init_vector"]))
+    chk.obligation("validator-chain:closed-forms-proved-for-all-n", lean_ok and (n_chain > 0 or not cmeta),
+                   {"instances": n_chain, "of": len(cmeta)})
     n_agree = sum(1 for r in recs if r["status"] == "agree")
     n_mis = sum(1 for r in recs if r["status"] == "mismatch")
     chk.obligation("correspondence:end-to-end-moments", lean_ok and n_agree > 0 and
